@@ -107,6 +107,10 @@ def harness(ctx):
         if g == "solve":
             Bm = ctx.leaf("rhsB", (N, 2))
             attempt(ctx, "solve[mat]", lambda: check_solve(ctx, op.solve(Bm), ref, Bm, "solve[mat]"))
+            if p["cfg"] in ("cg", "cg_precond") and not batch and p["builder"] in ("DensePD", "Diag", "AddedDiag", "ConstantDiag"):
+                # an all-zero column next to a generic one (a padded output): the generic column must still be solved
+                Bz = torch.cat([Bm[:, :1], torch.zeros(N, 1, dtype=torch.float64)], dim=-1)
+                attempt(ctx, "solve[zero col]", lambda: check_solve(ctx, op.solve(Bz), ref, Bz, "solve[generic column next to a zero column]"))
             if "cg" not in p["cfg"]:
                 bv = ctx.leaf("rhsbv", (N,))
                 attempt(ctx, "solve[vec]", lambda: check_solve(ctx, op.solve(bv), ref, bv, "solve[vec]"))
